@@ -211,7 +211,7 @@ class MyPyAstVisitor:
 
                 # Check if the superclass name is an alias and find the real name
                 if superclass_name in self.aliases:
-                    _, superclass_alias_qname = self._find_alias(superclass_name)
+                    _, superclass_alias_qname = self._find_alias(superclass_name, superclass_qname)
                     superclass_qname = superclass_alias_qname if superclass_alias_qname else superclass_qname
 
                 superclasses.append(superclass_qname)
@@ -1161,7 +1161,7 @@ class MyPyAstVisitor:
         logging.warning("Could not parse a type, added unknown type instead.")  # pragma: no cover
         return sds_types.UnknownType()  # pragma: no cover
 
-    def _find_alias(self, type_name: str) -> tuple[str, str]:
+    def _find_alias(self, type_name: str, known_qname: str = "") -> tuple[str, str]:
         module = self.__declaration_stack[0]
 
         # At this point, the first item of the stack can only ever be a module
@@ -1181,6 +1181,10 @@ class MyPyAstVisitor:
                 name = qname.split(".")[-1]
             else:
                 # In this case some types where defined in multiple modules with the same names.
+                if known_qname in qnames:
+                    # The qualified name the caller already knows is one of these definitions
+                    return known_qname.split(".")[-1], known_qname
+
                 # Sorted, so that the choice does not depend on the iteration order of the set
                 for alias_qname in sorted(qnames):
                     # We check if the type was defined in the same module
